@@ -202,7 +202,9 @@ func (e *Exec) reschedule(me *thread, canContinue bool) {
 		return
 	}
 	k := 0
-	if len(cands) > 1 {
+	if len(cands) > 1 && !e.cfg.DetSched {
+		// DetSched: when the running thread blocks or ends, the first enabled thread (creation order) runs -
+		// one schedule per history instead of every order of the runnable threads
 		k = e.choose(len(cands), 's')
 	}
 	if cands[k] == me {
